@@ -25,11 +25,15 @@ D3 == Obj(<<Mem(X, Num(2, 0)),
             Mem(K2, Obj(<<Mem(A, Num(2, 0)), Mem(S, Str(<<97>>))>>)),
             Mem(K3, Arr(<<Num(2, 0), Arr(<<Num(2, 0)>>), Str(<<97, 10>>)>>))>>)
 \* d2 is a distinct but equal copy of d1 (the harness materialises it separately)
-MCDocVal == [d1 |-> D1, d2 |-> D1, d3 |-> D3]
+\* d4: built by the harness from ONE shared sub-object referenced three times (no cycle): as a JSON value it
+\* is just its unfolding, and every query must treat it as such
+SH == Obj(<<Mem(A, Num(1, 0)), Mem(S, Str(<<97, 98>>))>>)
+D4 == Obj(<<Mem(X, Num(1, 0)), Mem(K1, SH), Mem(K2, SH), Mem(K3, Arr(<<SH, Arr(<<SH>>), Num(1, 0)>>))>>)
+MCDocVal == [d1 |-> D1, d2 |-> D1, d3 |-> D3, d4 |-> D4]
 \* the user may edit d3 in place: x becomes 1, k1.a becomes 2 (d1 and d2 are never edited)
 D3Alt == Obj(<<Mem(X, Num(1, 0)),
                Mem(K1, Obj(<<Mem(A, Num(2, 0))>>)),
                Mem(K2, Obj(<<Mem(A, Num(2, 0)), Mem(S, Str(<<97>>))>>)),
                Mem(K3, Arr(<<Num(2, 0), Arr(<<Num(2, 0)>>), Str(<<97, 10>>)>>))>>)
-MCDocAlt == [d1 |-> D1, d2 |-> D1, d3 |-> D3Alt]
+MCDocAlt == [d1 |-> D1, d2 |-> D1, d3 |-> D3Alt, d4 |-> D4]
 =============================================================================
